@@ -152,45 +152,7 @@ func runC17(p *Program, r *Result) {
 				r.Check(ok, fs.Fn.String(), "store:"+typ+".name", r.pos(fs.Store), why, "the plugin name field is set to "+val+" without validation (facts: "+short(factStrings(facts))+"): an unvalidated name would be executed")
 			}
 		}
-		// ParseRecipient / ParseIdentity / EncodeIdentity / EncodeRecipient return success only under validPluginName
-		for _, fnName := range []string{"ParseRecipient", "ParseIdentity"} {
-			fn := r.anchor(pkgPlugin, "", fnName)
-			if fn == nil {
-				continue
-			}
-			tb := p.TB(fn)
-			ret, err := successReturn(fn)
-			if err != nil {
-				r.Unk(fn.String(), "success:validated", "", err.Error())
-				continue
-			}
-			name := resultsOf(ret)[0]
-			facts := tb.FactsAt(ret.Block())
-			_, ok := findFact(facts, func(a Atom) bool {
-				return a.Kind == "call" && a.Pol && a.Call.S == pkgPlugin+".validPluginName" && len(a.Call.Args) == 1 && a.Call.Args[0].String() == tb.Term(name).String()
-			})
-			r.Check(ok, fn.String(), "success:validated", r.pos(ret), "the returned name passed validPluginName", "the name returned on success ("+short(tb.Term(name).String())+") was not checked by validPluginName")
-		}
-		for _, fnName := range []string{"EncodeIdentity", "EncodeRecipient"} {
-			fn := r.anchor(pkgPlugin, "", fnName)
-			if fn == nil {
-				continue
-			}
-			tb := p.TB(fn)
-			okAll := true
-			for _, ret := range returnsOf(fn) {
-				if c, isC := ret.Results[0].(*ssa.Const); isC && c.Value.ExactString() == `""` {
-					continue
-				}
-				facts := tb.FactsAt(ret.Block())
-				if _, ok := findFact(facts, func(a Atom) bool {
-					return a.Kind == "call" && a.Pol && short(a.Call.String()) == "plugin.validPluginName(P1)"
-				}); !ok {
-					okAll = false
-				}
-			}
-			r.Check(okAll, fn.String(), "nonempty:validated", "", "a non-empty encoding is returned only for a valid name", "a non-empty encoding can be returned for a name that was not validated")
-		}
+		checkPluginNameValidated(p, r)
 	}
 
 	// ---- R17.4
@@ -310,3 +272,48 @@ func runC17(p *Program, r *Result) {
 		r.Check(okAlloc, pkgPlugin, "literals", "", "plugin values are built only by the validating constructors", "a plugin.Recipient/Identity is built outside the constructors: "+where)
 	}
 }
+
+// checkPluginNameValidated: ParseRecipient/ParseIdentity return success, and
+// EncodeIdentity/EncodeRecipient a non-empty string, only for a name that
+// passed validPluginName (shared by C09 R09.6 and C17 R17.3).
+func checkPluginNameValidated(p *Program, r *Result) {
+		// ParseRecipient / ParseIdentity / EncodeIdentity / EncodeRecipient return success only under validPluginName
+	for _, fnName := range []string{"ParseRecipient", "ParseIdentity"} {
+		fn := r.anchor(pkgPlugin, "", fnName)
+		if fn == nil {
+			continue
+		}
+		tb := p.TB(fn)
+		ret, err := successReturn(fn)
+		if err != nil {
+			r.Unk(fn.String(), "success:validated", "", err.Error())
+			continue
+		}
+		name := resultsOf(ret)[0]
+		facts := tb.FactsAt(ret.Block())
+		_, ok := findFact(facts, func(a Atom) bool {
+			return a.Kind == "call" && a.Pol && a.Call.S == pkgPlugin+".validPluginName" && len(a.Call.Args) == 1 && a.Call.Args[0].String() == tb.Term(name).String()
+		})
+		r.Check(ok, fn.String(), "success:validated", r.pos(ret), "the returned name passed validPluginName", "the name returned on success ("+short(tb.Term(name).String())+") was not checked by validPluginName")
+	}
+	for _, fnName := range []string{"EncodeIdentity", "EncodeRecipient"} {
+		fn := r.anchor(pkgPlugin, "", fnName)
+		if fn == nil {
+			continue
+		}
+		tb := p.TB(fn)
+		okAll := true
+		for _, ret := range returnsOf(fn) {
+			if c, isC := ret.Results[0].(*ssa.Const); isC && c.Value.ExactString() == `""` {
+				continue
+			}
+			facts := tb.FactsAt(ret.Block())
+			if _, ok := findFact(facts, func(a Atom) bool {
+				return a.Kind == "call" && a.Pol && short(a.Call.String()) == "plugin.validPluginName(P1)"
+			}); !ok {
+				okAll = false
+			}
+		}
+		r.Check(okAll, fn.String(), "nonempty:validated", "", "a non-empty encoding is returned only for a valid name", "a non-empty encoding can be returned for a name that was not validated")
+	}
+	}
